@@ -27,6 +27,7 @@ class FakeFSM:
         self.active = True
         self.crew_wait = False
         self.archives = 0
+        self.archive_blocks = False
         self.state = 'running'
 
     def is_pipeline_active(self):
@@ -39,7 +40,20 @@ class FakeFSM:
         import dawgie.pl.farm as farm
 
         self.archives += 1
-        farm.ARCHIVE = False
+        if self.archive_blocks:
+            # C11: the pipeline is not active until the archive is done
+            self.active = False
+            self.state = 'archiving'
+        else:
+            farm.ARCHIVE = False
+
+    def archive_done(self):
+        import dawgie.pl.farm as farm
+
+        if self.state == 'archiving':
+            farm.ARCHIVE = False
+            self.active = True
+            self.state = 'running'
 
 
 class Unit:
@@ -131,6 +145,7 @@ class Sim:
         self.errors = []  # swallowed exceptions reported through logging
         self.auto_workers = auto_workers
         self.rev = rev
+        self.prev_rev = None
         self.flags = {}  # (tag, target) -> justification outstanding
         # (tag, target) whose 'doing' bookkeeping was cleared by an upstream
         # purge while a unit was executing; cleared when none is in flight
@@ -253,6 +268,17 @@ class Sim:
         def err(msg, *a, **k):
             sim.errors.append(('error', msg % a if a else msg))
 
+        real['do'] = farm.Hand.do
+
+        def hand_do(hand, task):
+            import dawgie.context
+
+            sim.calls.append(('do', hand, task, sim.fsm.active,
+                              dawgie.context.git_rev,
+                              bool(getattr(hand.transport, 'closed', False))))
+            return real['do'](hand, task)
+
+        farm.Hand.do = hand_do
         farm._put = put
         sched.complete = complete
         sched.update = update
@@ -265,6 +291,7 @@ class Sim:
         farm, sched, chron = self.farm, self.sched, self.chron
         r = self._real
         farm._put = r['put']
+        farm.Hand.do = r['do']
         sched.complete = r['complete']
         sched.update = r['update']
         sched.purge = r['purge']
@@ -343,7 +370,8 @@ class Sim:
                     w.got_task = m
                     tgt = m.target or '__all__'
                     for u in self.units:
-                        if (not u.handed and u.jobid == m.jobid
+                        if (not u.handed and not u.answered
+                                and u.jobid == m.jobid
                                 and u.target == tgt and u.runid == m.runid):
                             u.handed = True
                             u.worker = w
@@ -360,29 +388,42 @@ class Sim:
                 # the real worker closes its socket after a task / an abort
                 w.drop()
 
-    def join(self, rev_ok=True, host='h0'):
+    def revision(self, rev_ok, variant=0):
+        '''the revision a worker reports: current, or one of several stale
+        ones (look-alikes included)'''
+        if rev_ok:
+            return self.rev
+        stale = ['stale-rev', '', self.rev[:-1], self.rev + '0',
+                 self.rev.upper(), self.prev_rev or 'rev-x']
+        r = stale[variant % len(stale)]
+        return r if r != self.rev else 'stale-rev'
+
+    def join(self, rev_ok=True, host='h0', variant=0):
         import dawgie.pl.message as message
 
         sock = rig.LoopSocket(self.farm.Hand(world.Address(host, 4000)))
         w = Worker(sock, rev_ok, host)
+        w.rev = self.revision(rev_ok, variant)
+        w.active_at_join = self.fsm.active
         self.workers.append(w)
         m = message.make(
             typ=message.Type.register,
             inc=len(self.workers),
-            rev=self.rev if rev_ok else 'stale-rev',
+            rev=w.rev,
         )
         message.send(m, sock)
+        w.registered_ok = w.rev == self.rev
         self._scan_workers()
         return w
 
-    def status_poll(self, rev_ok=True):
+    def status_poll(self, rev_ok=True, variant=0):
         '''what worker.Context.abort() does: one status message, one reply'''
         import dawgie.pl.message as message
 
         sock = rig.LoopSocket(self.farm.Hand(world.Address('h9', 4002)))
         message.send(
             message.make(typ=message.Type.status,
-                         rev=self.rev if rev_ok else 'stale-rev'),
+                         rev=self.revision(rev_ok, variant)),
             sock,
         )
         fr = world.frames(sock.transport.data)
@@ -404,7 +445,10 @@ class Sim:
                'left_in_farm': list(self.farm._workers)}
         for u in self.units:
             u.answered = True  # work of the previous load is abandoned
-        self.rev = f'rev-{n % 3}'
+        self.prev_rev = self.rev
+        self.rev = f'rev-{[1, 12, 2, 120][n % 4]}'
+        if self.rev == self.prev_rev:
+            self.rev += 'b'
         dawgie.context.git_rev = self.rev
         self.rebuild(())
         self.fsm.active = True
@@ -521,6 +565,7 @@ class Sim:
                 if self.releasable(t, x)
             ]
             ev['exec_before'] = {t: self.executing(t) for t in self.nodes}
+            ev['carried'] = dict(self.event_runid)
             self.tick()
             ev['released'] = self.units[nrel:]
         elif kind == 'req':
@@ -563,7 +608,11 @@ class Sim:
             else:
                 ev['names'], ev['targets'] = [], set()
         elif kind == 'join':
-            ev['worker'] = self.join(bool(op[1]), f'h{op[2] if len(op) > 2 else 0}')
+            ev['worker'] = self.join(bool(op[1]),
+                                     f'h{op[2] if len(op) > 2 else 0}',
+                                     op[3] if len(op) > 3 else 0)
+        elif kind == 'archived':
+            self.fsm.archive_done()
         elif kind == 'leave':
             self.leave(op[1])
         elif kind == 'rep':
@@ -581,7 +630,9 @@ class Sim:
         elif kind == 'active':
             self.fsm.active = bool(op[1])
         elif kind == 'status':
-            ev['status'] = self.status_poll(bool(op[1]))
+            ev['status'] = self.status_poll(bool(op[1]),
+                                            op[2] if len(op) > 2 else 0)
+            ev['status']['active'] = self.fsm.active
         elif kind == 'reload':
             ev['reload'] = self.reload(op[1])
         else:
@@ -681,7 +732,8 @@ def op_strategy(weights=None):
     w = {
         'tick': 2, 'rep': 2, 'req': 2, 'join': 1, 'leave': 0, 'tgt': 1,
         'pause': 0, 'active': 0, 'rereq': 1, 'auto': 9,
-        'auto2': 8, 'requp': 1,
+        'auto2': 8, 'requp': 1, 'status': 0, 'reload': 0, 'archived': 0,
+        'joinx': 0,
     }
     w.update(weights or {})
     small = st.integers(0, 7)
@@ -711,6 +763,13 @@ def op_strategy(weights=None):
     choices += [st.tuples(st.just('join'), st.sampled_from([1, 1, 1, 0]),
                           st.integers(0, 2)).map(list)] * w['join']
     choices += [st.tuples(st.just('leave'), small).map(list)] * w['leave']
+    choices += [st.tuples(st.just('join'), st.sampled_from([1, 0, 0]),
+                          st.integers(0, 2),
+                          st.integers(0, 5)).map(list)] * w['joinx']
+    choices += [st.tuples(st.just('status'), st.integers(0, 1),
+                          st.integers(0, 5)).map(list)] * w['status']
+    choices += [st.tuples(st.just('reload'), small).map(list)] * w['reload']
+    choices += [st.just(['archived'])] * w['archived']
     choices += [st.tuples(st.just('tgt'), small).map(list)] * w['tgt']
     choices += [st.sampled_from([['pause'], ['unpause']])] * w['pause']
     choices += [st.tuples(st.just('active'), st.integers(0, 1)).map(list)] * w['active']
@@ -754,7 +813,7 @@ def histories(draw, weights=None, max_ops=60, min_ops=4, spec_kw=None,
     }
 
 
-def run_history(case, on_event, at_end=None, pid=None):
+def run_history(case, on_event, at_end=None, pid=None, setup=None):
     '''interpret a history; call on_event(sim, event, out) after each op.
     A history in which a listed known finding has fired is not evaluated any
     further (its consequences would only be echoes of that finding).'''
@@ -762,6 +821,8 @@ def run_history(case, on_event, at_end=None, pid=None):
     sim = Sim(case['spec'], case['targets'], case.get('bumped', ()),
               auto_workers=case.get('workers', 0))
     try:
+        if setup is not None:
+            setup(sim)
         if sim.missing:
             out.fail(
                 'graph/algorithm-missing-from-task-tree',
